@@ -46,6 +46,9 @@ Definition resolve (env : list nat) (op : libop) : libop :=
   | OTaskReinsert t p => OTaskReinsert (rv env t) p
   | OTaskThrow t e => OTaskThrow (rv env t) e
   | OTaskInterrupt t e => OTaskInterrupt (rv env t) e
+  | OCallSoonCancel t => OCallSoonCancel (rv env t)
+  | OAwaitFut f => OAwaitFut (rv env f)
+  | OCancelAw f => OCancelAw (rv env f)
   | _ => op
   end.
 
